@@ -11,12 +11,14 @@ import (
 	"fmt"
 	"io/ioutil"
 	"net/http"
+	"sort"
 	"strings"
 	"sync"
 	"testing"
 	"time"
 
 	"github.com/prometheus/client_golang/prometheus"
+	appsv1 "k8s.io/api/apps/v1"
 	"github.com/prometheus/prometheus/model/labels"
 	pscrape "github.com/prometheus/prometheus/scrape"
 	corev1 "k8s.io/api/core/v1"
@@ -39,7 +41,11 @@ import (
 type stsPlan struct {
 	Name   string   `json:"name"`
 	Pods   int      `json:"pods"`
-	States []string `json:"states"` // per cycle: settled | rolling | notready
+	States []string `json:"states"` // per cycle: settled | rolling | notready | rolling-notready
+	// NS: namespace ("" = the default one of these tests); PodLabel: value of the pod selector label ("" = Name).
+	// The same manifest installed in two namespaces gives two StatefulSets with equal names and selectors.
+	NS       string `json:"ns,omitempty"`
+	PodLabel string `json:"podLabel,omitempty"`
 }
 
 type coordCase struct {
@@ -47,7 +53,28 @@ type coordCase struct {
 	Cycles  int       `json:"cycles"`
 	Targets int       `json:"targets"`
 	Min     int       `json:"min"`
+	// Aged[k]: before cycle k+1 more than two minutes pass (the replicas manager waits that long for a StatefulSet
+	// that is not ready before it uses it again)
+	Aged []bool `json:"aged,omitempty"`
+	// AllNS: the manager selects StatefulSets in all namespaces (--shard.namespace empty)
+	AllNS bool `json:"allNs,omitempty"`
 }
+
+func (s *stsPlan) ns() string {
+	if s.NS == "" {
+		return ns
+	}
+	return s.NS
+}
+
+func (s *stsPlan) podLabel() string {
+	if s.PodLabel == "" {
+		return s.Name
+	}
+	return s.PodLabel
+}
+
+func (s *stsPlan) key() string { return s.ns() + "/" + s.Name }
 
 const coordHash = "HASH-K8S-COORD"
 
@@ -61,13 +88,15 @@ type k8sRT struct{ l *podLog }
 
 func (rt k8sRT) RoundTrip(req *http.Request) (*http.Response, error) {
 	host := req.URL.Hostname()
-	rt.l.mu.Lock()
-	rt.l.reqs[host] = append(rt.l.reqs[host], fmt.Sprintf("cycle %d: %s %s", rt.l.cyc, req.Method, req.URL.Path))
-	rt.l.mu.Unlock()
+	body := ""
 	if req.Body != nil {
-		_, _ = ioutil.ReadAll(req.Body)
+		b, _ := ioutil.ReadAll(req.Body)
 		_ = req.Body.Close()
+		body = normBody(b)
 	}
+	rt.l.mu.Lock()
+	rt.l.reqs[host] = append(rt.l.reqs[host], fmt.Sprintf("cycle %d: %s %s%s", rt.l.cyc, req.Method, req.URL.Path, body))
+	rt.l.mu.Unlock()
 	var data interface{}
 	switch {
 	case strings.HasPrefix(req.URL.Path, "/api/v1/shard/runtimeinfo"):
@@ -79,6 +108,22 @@ func (rt k8sRT) RoundTrip(req *http.Request) (*http.Response, error) {
 	return &http.Response{StatusCode: 200, Status: "200 OK", Proto: "HTTP/1.1", ProtoMajor: 1, ProtoMinor: 1,
 		Header: http.Header{"Content-Type": []string{"application/json"}}, Body: ioutil.NopCloser(strings.NewReader(string(b))),
 		ContentLength: int64(len(b)), Request: req}, nil
+}
+
+// normBody renders a request body independent of map and slice order (target lists are sorted by hash).
+func normBody(b []byte) string {
+	var tr shard.UpdateTargetsRequest
+	if json.Unmarshal(b, &tr) == nil && tr.Targets != nil {
+		var items []string
+		for job, ts := range tr.Targets {
+			for _, t := range ts {
+				items = append(items, fmt.Sprintf("%s/%d/%s", job, t.Hash, t.TargetState))
+			}
+		}
+		sort.Strings(items)
+		return " targets[" + strings.Join(items, ",") + "]"
+	}
+	return fmt.Sprintf(" body[%d bytes]", len(b))
 }
 
 var coordExec sync.Mutex
@@ -103,23 +148,57 @@ func (s *coordStepper) Replicas() ([]shard.Manager, error) {
 
 func podIP(si, pi int) string { return fmt.Sprintf("10.%d.0.%d", si+1, pi+1) }
 
-// runCoord executes the history; violations of both properties are returned (keys tell which).
-func runCoord(c *coordCase) (vs []vkit.Violation, classes []string) {
-	add := func(key, f string, a ...interface{}) {
-		vs = append(vs, vkit.Violation{Key: key, Msg: fmt.Sprintf(f, a...)})
+// coordObs is what one execution of a history showed: requests per pod IP and writes per StatefulSet
+// ("<namespace>/<name>") or volume claim ("<namespace>/<claim>"), each line tagged with its cycle.
+type coordObs struct {
+	reqs  map[string][]string
+	acts  map[string][]string
+	crash string
+	hung  bool
+}
+
+// of returns everything that concerns StatefulSet si, in a canonical order.
+func (o *coordObs) of(c *coordCase, si int) string {
+	s := &c.Sets[si]
+	var lines []string
+	for pi := 0; pi < s.Pods+2; pi++ {
+		for _, r := range o.reqs[podIP(si, pi)] {
+			lines = append(lines, fmt.Sprintf("%s-%d %s", s.Name, pi, r))
+		}
+		for _, a := range o.acts[fmt.Sprintf("%s/data-%s-%d", s.ns(), s.Name, pi)] {
+			lines = append(lines, fmt.Sprintf("claim data-%s-%d %s", s.Name, pi, a))
+		}
 	}
+	for _, a := range o.acts[s.key()] {
+		lines = append(lines, "statefulset "+a)
+	}
+	sort.Strings(lines)
+	return strings.Join(lines, "\n")
+}
+
+// execCoord executes the history.  only >= 0: the cluster contains nothing but StatefulSet number `only`
+// (with the pod addresses it has in the full case).
+func execCoord(c *coordCase, only int) *coordObs {
 	coordExec.Lock()
 	defer coordExec.Unlock()
+	obs := &coordObs{}
 	var objs []runtime.Object
-	for si, s := range c.Sets {
-		set := mkSts(s.Name, s.Pods, []string{"data"}, s.Name, s.Pods)
+	for si := range c.Sets {
+		s := &c.Sets[si]
+		if only >= 0 && si != only {
+			continue
+		}
+		set := mkSts(s.Name, s.Pods, []string{"data"}, s.podLabel(), s.Pods)
+		set.Namespace = s.ns()
 		objs = append(objs, set)
 		for pi := 0; pi < s.Pods; pi++ {
 			objs = append(objs, &corev1.Pod{
-				ObjectMeta: metav1.ObjectMeta{Name: fmt.Sprintf("%s-%d", s.Name, pi), Namespace: ns, Labels: map[string]string{"sts": s.Name}},
+				ObjectMeta: metav1.ObjectMeta{Name: fmt.Sprintf("%s-%d", s.Name, pi), Namespace: s.ns(), Labels: map[string]string{"sts": s.podLabel()}},
 				Status:     corev1.PodStatus{PodIP: podIP(si, pi)},
 			})
-			objs = append(objs, mkPVC(fmt.Sprintf("data-%s-%d", s.Name, pi)))
+			pvc := mkPVC(fmt.Sprintf("data-%s-%d", s.Name, pi))
+			pvc.Namespace = s.ns()
+			objs = append(objs, pvc)
 		}
 	}
 	cli := fake.NewSimpleClientset(objs...)
@@ -128,11 +207,14 @@ func runCoord(c *coordCase) (vs []vkit.Violation, classes []string) {
 	var actMu sync.Mutex
 	acts := map[string][]string{}
 	note := func(a k8stesting.Action) (bool, runtime.Object, error) {
-		name := ""
+		name, detail := "", ""
 		switch x := a.(type) {
 		case k8stesting.UpdateAction:
 			if m, ok := x.GetObject().(metav1.Object); ok {
 				name = m.GetName()
+			}
+			if set, ok := x.GetObject().(*appsv1.StatefulSet); ok && set.Spec.Replicas != nil {
+				detail = fmt.Sprintf(" replicas=%d", *set.Spec.Replicas)
 			}
 		case k8stesting.DeleteAction:
 			name = x.GetName()
@@ -141,7 +223,8 @@ func runCoord(c *coordCase) (vs []vkit.Violation, classes []string) {
 		cyc := pl.cyc
 		pl.mu.Unlock()
 		actMu.Lock()
-		acts[name] = append(acts[name], fmt.Sprintf("cycle %d: %s %s", cyc, a.GetVerb(), a.GetResource().Resource))
+		key := a.GetNamespace() + "/" + name
+		acts[key] = append(acts[key], fmt.Sprintf("cycle %d: %s %s%s", cyc, a.GetVerb(), a.GetResource().Resource, detail))
 		actMu.Unlock()
 		return false, nil, nil
 	}
@@ -158,15 +241,26 @@ func runCoord(c *coordCase) (vs []vkit.Violation, classes []string) {
 	http.DefaultTransport = k8sRT{pl}
 	defer func() { http.DefaultTransport = old }()
 
-	rm := kshard.NewReplicasManager(cli, ns, "app.kubernetes.io/name=prometheus", 8080, true, quiet)
+	mgrNS := ns
+	if c.AllNS {
+		mgrNS = ""
+	}
+	rm := kshard.NewReplicasManager(cli, mgrNS, "app.kubernetes.io/name=prometheus", 8080, true, quiet)
 	st := &coordStepper{rm: rm, calls: make(chan int, 2), max: c.Cycles}
 	st.before = func(k int) {
 		pl.mu.Lock()
 		pl.cyc = k
 		pl.mu.Unlock()
+		if k-1 < len(c.Aged) && c.Aged[k-1] {
+			rm.VerifAgeNotReady(3 * time.Minute)
+		}
 		harness = true
-		for _, s := range c.Sets {
-			set, err := cli.AppsV1().StatefulSets(ns).Get(context.TODO(), s.Name, metav1.GetOptions{})
+		for si := range c.Sets {
+			s := &c.Sets[si]
+			if only >= 0 && si != only {
+				continue
+			}
+			set, err := cli.AppsV1().StatefulSets(s.ns()).Get(context.TODO(), s.Name, metav1.GetOptions{})
 			if err != nil {
 				continue
 			}
@@ -177,8 +271,11 @@ func runCoord(c *coordCase) (vs []vkit.Violation, classes []string) {
 				set.Status.UpdatedReplicas = n - 1
 			case "notready":
 				set.Status.ReadyReplicas = n - 1
+			case "rolling-notready":
+				set.Status.UpdatedReplicas = n - 1
+				set.Status.ReadyReplicas = n - 1
 			}
-			_, _ = cli.AppsV1().StatefulSets(ns).Update(context.TODO(), set, metav1.UpdateOptions{})
+			_, _ = cli.AppsV1().StatefulSets(s.ns()).Update(context.TODO(), set, metav1.UpdateOptions{})
 		}
 		harness = false
 	}
@@ -194,7 +291,7 @@ func runCoord(c *coordCase) (vs []vkit.Violation, classes []string) {
 		return s
 	}
 	cfg := &prom.ConfigInfo{RawContent: []byte("raw"), ConfigHash: coordHash, ExtraConfig: &prom.ExtraConfig{}}
-	co := coordinator.NewCoordinator(&coordinator.Option{MaxProcessSeries: 1000, MaxShard: 50, MinShard: int32(c.Min), Period: 0}, st,
+	co := coordinator.NewCoordinator(&coordinator.Option{MaxProcessSeries: 1000, MaxShard: 50, MinShard: int32(c.Min), Period: 0, MaxIdleTime: time.Hour}, st,
 		func() *prom.ConfigInfo { return cfg }, good, func() map[uint64]*discovery.SDTargets { return active }, prometheus.NewRegistry(), quiet)
 	ctx, cancel := context.WithCancel(context.Background())
 	crashed := make(chan string, 1)
@@ -209,9 +306,9 @@ func runCoord(c *coordCase) (vs []vkit.Violation, classes []string) {
 	select {
 	case <-st.calls:
 	case p := <-crashed:
-		add("C18/coordinator-panics", "the coordinator panicked: %s", p)
+		obs.crash = p
 	case <-time.After(20 * time.Second):
-		add("C18/harness", "the history did not finish within 20s")
+		obs.hung = true
 	}
 	cancel()
 
@@ -219,6 +316,38 @@ func runCoord(c *coordCase) (vs []vkit.Violation, classes []string) {
 	defer pl.mu.Unlock()
 	actMu.Lock()
 	defer actMu.Unlock()
+	obs.reqs, obs.acts = pl.reqs, acts
+	return obs
+}
+
+// runCoord executes the history; violations of both properties are returned (keys tell which).
+func runCoord(c *coordCase) (vs []vkit.Violation, classes []string) {
+	add := func(key, f string, a ...interface{}) {
+		vs = append(vs, vkit.Violation{Key: key, Msg: fmt.Sprintf(f, a...)})
+	}
+	obs := execCoord(c, -1)
+	if obs.crash != "" {
+		add("C18/coordinator-panics", "the coordinator panicked: %s", obs.crash)
+	}
+	if obs.hung {
+		add("C18/harness", "the history did not finish within 20s")
+	}
+	if c.AllNS {
+		classes = append(classes, "coord/all-namespaces")
+	}
+	// C19, differential: what concerns one StatefulSet is what it would be if it were the only one
+	if len(c.Sets) > 1 && obs.crash == "" && !obs.hung {
+		for si := range c.Sets {
+			alone := execCoord(c, si)
+			if alone.crash != "" || alone.hung {
+				continue
+			}
+			if w, g := alone.of(c, si), obs.of(c, si); w != g {
+				add("C19/k8s/depends-on-other-statefulset", "StatefulSet %s (states %v): requests to its shards and writes to it when it is the only StatefulSet:\n%s\nwith the others present (%+v, aged %v, all namespaces %v):\n%s", c.Sets[si].key(), c.Sets[si].States, w, c.Sets, c.Aged, c.AllNS, g)
+			}
+		}
+	}
+	reqs, acts := obs.reqs, obs.acts
 	for k := 1; k <= c.Cycles; k++ {
 		tag := fmt.Sprintf("cycle %d:", k)
 		anyListed := false
@@ -230,28 +359,39 @@ func runCoord(c *coordCase) (vs []vkit.Violation, classes []string) {
 		for si, s := range c.Sets {
 			var touched []string
 			for pi := 0; pi < s.Pods; pi++ {
-				for _, r := range pl.reqs[podIP(si, pi)] {
+				for _, r := range reqs[podIP(si, pi)] {
 					if strings.HasPrefix(r, tag) {
 						touched = append(touched, fmt.Sprintf("%s-%d %s", s.Name, pi, r))
 					}
 				}
 			}
 			var changed []string
-			for _, a := range acts[s.Name] {
+			for _, a := range acts[s.key()] {
 				if strings.HasPrefix(a, tag) {
 					changed = append(changed, a)
 				}
 			}
 			for pi := 0; pi < s.Pods+2; pi++ {
-				for _, a := range acts[fmt.Sprintf("data-%s-%d", s.Name, pi)] {
+				for _, a := range acts[fmt.Sprintf("%s/data-%s-%d", s.ns(), s.Name, pi)] {
 					if strings.HasPrefix(a, tag) {
 						changed = append(changed, a)
 					}
 				}
 			}
 			switch s.States[k-1] {
-			case "rolling":
+			case "rolling", "rolling-notready":
 				classes = append(classes, "coord/rolling-update-cycle")
+				if s.States[k-1] == "rolling-notready" {
+					waited := false
+					for q := 0; q < k; q++ {
+						if q < len(c.Aged) && c.Aged[q] && q > 0 && strings.HasSuffix(s.States[q-1], "notready") {
+							waited = true
+						}
+					}
+					if waited {
+						classes = append(classes, "coord/rolling-update-with-unready-pod-for-more-than-2m")
+					}
+				}
 				if k > 1 && s.States[k-2] == "settled" {
 					classes = append(classes, "coord/rolling-update-after-coordinated-cycle")
 				}
@@ -288,16 +428,47 @@ func genCoord(t *rapid.T) *coordCase {
 	c := &coordCase{Cycles: rapid.IntRange(1, 4).Draw(t, "cycles"), Targets: rapid.IntRange(0, 4).Draw(t, "targets")}
 	names := []string{"rep-a", "rep-b", "rep-c"}
 	n := rapid.IntRange(1, 3).Draw(t, "sets")
+	// several namespaces (the same manifest installed twice gives equal names and equal pod selectors in
+	// different namespaces); the manager then selects StatefulSets in all namespaces
+	c.AllNS = n > 1 && rapid.IntRange(0, 2).Draw(t, "allNs") == 0
 	maxPods := 0
+	used := map[string]bool{} // namespace/name and namespace/label pairs taken
 	for i := 0; i < n; i++ {
 		s := stsPlan{Name: names[i], Pods: rapid.IntRange(1, 3).Draw(t, fmt.Sprintf("pods%d", i))}
+		if c.AllNS {
+			s.NS = rapid.SampledFrom([]string{"", "tenant-b", "tenant-c"}).Draw(t, fmt.Sprintf("ns%d", i))
+			if i > 0 && rapid.Bool().Draw(t, fmt.Sprintf("sameName%d", i)) {
+				s.Name = names[0]
+			}
+			if rapid.Bool().Draw(t, fmt.Sprintf("sharedLabel%d", i)) {
+				s.PodLabel = "prometheus"
+			}
+			// inside one namespace names and selectors stay distinct
+			if used[s.ns()+"/n/"+s.Name] {
+				s.Name = names[i]
+			}
+			if used[s.ns()+"/l/"+s.podLabel()] || used[s.ns()+"/n/"+s.Name] {
+				s.Name, s.PodLabel = names[i], ""
+			}
+			if used[s.ns()+"/l/"+s.podLabel()] {
+				s.PodLabel = "own-" + names[i]
+			}
+			used[s.ns()+"/n/"+s.Name], used[s.ns()+"/l/"+s.podLabel()] = true, true
+		}
 		if s.Pods > maxPods {
 			maxPods = s.Pods
 		}
 		for k := 0; k < c.Cycles; k++ {
-			s.States = append(s.States, rapid.SampledFrom([]string{"settled", "settled", "rolling", "notready"}).Draw(t, fmt.Sprintf("state%d-%d", i, k)))
+			st := rapid.SampledFrom([]string{"settled", "settled", "settled", "rolling", "notready", "rolling-notready"}).Draw(t, fmt.Sprintf("state%d-%d", i, k))
+			if k > 0 && rapid.IntRange(0, 2).Draw(t, fmt.Sprintf("sticky%d-%d", i, k)) == 0 {
+				st = s.States[k-1] // a slow roll-out stays what it is for a while
+			}
+			s.States = append(s.States, st)
 		}
 		c.Sets = append(c.Sets, s)
+	}
+	for k := 0; k < c.Cycles; k++ {
+		c.Aged = append(c.Aged, k > 0 && rapid.IntRange(0, 2).Draw(t, fmt.Sprintf("aged%d", k)) == 0)
 	}
 	// a minimum above / below the current size makes the coordinator request scale changes
 	c.Min = rapid.IntRange(0, maxPods+1).Draw(t, "min")
